@@ -7,7 +7,7 @@
 #   PROPS=all ./selftest.sh x.patch   run every claimed check against the patch (cross-detection table)
 cd "$(dirname "$0")" || exit 2
 export GOFLAGS=-mod=mod GOPROXY=off GOSUMDB=off GOTOOLCHAIN=local
-go build -o bin/verif ./cmd/verif || exit 2
+[ -n "$SELFTEST_NOBUILD" ] || go build -o bin/verif ./cmd/verif || exit 2
 ALL="C05 C06 C07 C08 C09 C14 C16 C18"
 patches=("$@")
 if [ ${#patches[@]} -eq 0 ]; then
@@ -65,11 +65,12 @@ for p in "${patches[@]}"; do
   git -C /repo worktree remove --force "$wt"
 done
 mkdir -p evidence
+json=${SELFTEST_JSON:-evidence/selftest.json}
 {
   echo '{"selftest":"sensitivity","repo_head":"'"$(git -C /repo rev-parse --short HEAD)"'","results":['
   (IFS=,; echo "${results[*]}")
   echo ']}'
-} > evidence/selftest.json
+} > "$json"
 rm -rf "$scratch"
 git -C /repo worktree prune
 exit $fail
